@@ -1,6 +1,6 @@
 """C10 - search results do not depend on output format or input container."""
-from ..nnabs import MOD
-from ..terms import show, strip, head
+from ..nnabs import MOD, lits
+from ..terms import NONE, show, strip, strip_all, head
 from ._nn import check_make_output, check_roles_consistent, check_typestate, check_validation, get_nn, role_term, wh
 
 CLAIMED = True
@@ -38,7 +38,21 @@ def run(r):
             ref = nn.R._role_of(fq, a[2]) if len(a) > 2 else None
             qry = nn.R._role_of(fq, a[3]) if len(a) > 3 else None
             ot = nn.R._role_of(fq, a[1]) if len(a) > 1 else None
-            rep.ob("C10-SITE", fq, ref == "SEQS" and (len(a) < 4 or qry == "SEQS2") and ot == "OT", "the result is shaped by the reference collection (rows) and the query collection (columns) and by the caller's output_type",
+            q2 = [t for t, role in nn.R.of(fq).items() if role == "SEQS2"]
+            no_query = len(a) < 4 or strip(a[3]) == NONE
+            if no_query:
+                # no query collection is handed on: fine where the function has none, or on a path where it is known to be absent
+                def absent(t):
+                    for g, pol in e.ctx.guards:
+                        for lit, lp_ in lits(g, pol):
+                            lit = strip_all(lit)
+                            if head(lit) == "cmp" and strip(lit[2]) == t and strip(lit[3]) == NONE and ((lit[1] in ("is", "==") and lp_) or (lit[1] in ("isnot", "!=") and not lp_)):
+                                return True
+                    return False
+                qry_ok = all(absent(t) for t in q2)
+            else:
+                qry_ok = qry == "SEQS2"
+            rep.ob("C10-SITE", fq, ref == "SEQS" and qry_ok and ot == "OT", "the result is shaped by the reference collection (rows) and the query collection (columns) and by the caller's output_type",
                    wh(r, fq, e.node), expected="_make_output(triplets, output_type, seqs, seqs2)", found=show(c, 90), key=f"make_output site {fq}")
     rep.require(sites >= 5, f"C10-SITE: {sites} _make_output call sites, floor is 5")
     check_validation(r, "C10-VAL")
@@ -63,6 +77,9 @@ VARIANTS = [
     V("shape-transposed", N, "else (len(seqs), len(seqs2))", "else (len(seqs2), len(seqs))", rule="C10-OUT"),
     V("ndarray-of-other-matrix", N, 'return coo_result if output_type == "coo_matrix" else coo_result.toarray()', 'return coo_result if output_type == "coo_matrix" else coo_result.T.toarray()', rule="C10-OUT"),
     V("lookup-make_output-swapped", N, "        return _make_output(ans, output_type, self.seqs, seqs2)\n\n\ndef _hamming", "        return _make_output(ans, output_type, seqs2, self.seqs)\n\n\ndef _hamming", rule="C10-SITE"),
+    V("hash-lookup-drops-query-collection", N, "        return _make_output(ans, output_type, self.seqs, seqs2)\n\ndef hash_based", "        return _make_output(ans, output_type, self.seqs)\n\ndef hash_based", rule="C10-SITE"),
+    V("symdel-lookup-query-none", N, "        return _make_output(ans, output_type, self.seqs, seqs2)\n\n\ndef _hamming", "        return _make_output(ans, output_type, self.seqs, None)\n\n\ndef _hamming", rule="C10-SITE"),
+    V("silent-symdel-self-none", N, "        return _make_output(ans, output_type, seqs, seqs2)\n", "        return _make_output(ans, output_type, seqs, None)\n", expect="silent"),
     V("validation-after-use", N, "    _check_common_input(\n        seqs,\n        max_edits,\n        max_returns,\n        n_cpu,\n        custom_distance,\n        max_custom_distance,\n        output_type,\n        seqs2\n    )",
       "    first = SymdelDB(seqs, max_edits)\n    _check_common_input(\n        seqs,\n        max_edits,\n        max_returns,\n        n_cpu,\n        custom_distance,\n        max_custom_distance,\n        output_type,\n        seqs2\n    )", rule="C10"),
     V("silent-list-normaliser", N, "    seqs = ensure_numpy(seqs)\n    symdeldb = SymdelDB(seqs, max_edits)", "    seqs = list(seqs)\n    symdeldb = SymdelDB(seqs, max_edits)", expect="silent"),
